@@ -198,9 +198,10 @@ theorem wrapEach_sem (tbl inner : List WMethod) (m : WMethod) (h : conforms inne
 /-- methods of `AnsiStr` that are not a direct delegation to the `AnsiString` method of their name -/
 def exempt : List String :=
   ["__new__", "__iter__", "__eq__", "join", "encode",          -- hand-modelled (C13.lean) / twin execution
-   "__add__", "__iadd__", "__format__", "expandtabs", "base_str"]   -- other delegations: `exempt_bodies`
+   "__add__", "__iadd__", "__format__", "expandtabs", "base_str",   -- other delegations: `exempt_bodies`
+   "__getnewargs__"]                                              -- the copy protocol: C13c.lean
 
-/-- EVERY METHOD OF THE CODE'S `AnsiStr` IS A CONFORMING DELEGATION (or one of the ten exempt ones). -/
+/-- EVERY METHOD OF THE CODE'S `AnsiStr` IS A CONFORMING DELEGATION (or one of the eleven exempt ones). -/
 theorem table_conforms : ∀ m ∈ Gen.ansiStr, m.name ∈ exempt ∨ conforms Gen.ansiString m = true := by
   decide +kernel
 
